@@ -18,15 +18,29 @@
      state left behind by earlier computations, and the state left behind satisfies the invariant again, so
      the theorem applies to every computation of a history of stree computations.
    Hypotheses of all of them: [pointwise] - no flush body raises half way (otherwise an item's answer depends
-   on its position in the batch and "sequential evaluation" is not defined); [no_unwind] - the
-   runaway-recursion guard did not fire.
+   on its position in the batch and "sequential evaluation" is not defined); [no_unwind] - no exception
+   unwound through asynq's own frames.
+   - For TREE programs the hypothesis [no_unwind] is discharged (proofs/MachineNoUnwind.v): the only exception
+     that can unwind is the RuntimeError of the MAX_TASK_STACK_SIZE guard (FutureIsAlreadyComputed is
+     unreachable, props/C08.v C08_tree_never_raises_already_computed), so
+     C01_async_eq_seq_tree_unless_guard: if the outermost value() returns o then o = eval p OR the guard fired
+     at some earlier step ([guard_fires P c]: the boolean test of the _execute loop head in Machine.step,
+     `len(tasks) > init_num_tasks and len(tasks) > MAX_TASK_STACK_SIZE`); and
+     C01_async_eq_seq_tree_few_futures: no such alternative at all while the number of futures created so far
+     (top_next) is at most MAX_TASK_STACK_SIZE - the task stack of a tree computation holds pairwise distinct
+     futures, so it cannot be longer (C08_tree_stack_bound).  C01_guard_alternative_is_real: both cases occur
+     (c01_demo with MAX_TASK_STACK_SIZE = 1000 resp. 1, where the outcome is the guard's RuntimeError).
+     C01_async_eq_seq_stree_unless_guard: the "unless the guard fired" form also for [stree] programs (there the
+     RuntimeError may be caught by the caller of a synchronous call and the run go on; nothing is claimed
+     about the outcome then).  No "few futures" theorem for stree programs.
 
    NOT PROVED (statement kept at the end of the file): programs with stored handles - a future created by
    Let and awaited later or twice (DAGs), LOld leaves, value() on an already existing future (including a
    synchronous value() on a batch item or on somebody else's task) -, programs reading scoped state or the
    active task (ReadVar / Probe; their sequential meaning needs an environment), contexts whose
    pause/resume raise; for them C01 rests on the correspondence and the monitors. *)
-From Asynq Require Import Machine Seq proofs.ProgProofs proofs.MachineC08 proofs.MachineC01 proofs.MachineC01S.
+From Asynq Require Import Machine Seq proofs.ProgProofs proofs.MachineC08 proofs.MachineC01 proofs.MachineC01S
+     proofs.MachineNoUnwind.
 
 Theorem C01_async_eq_seq_tree : forall P p n o,
   pointwise P -> tree p ->
@@ -66,6 +80,49 @@ Theorem C01_hypotheses_satisfiable :
   eval c01_demo = Ok (VTuple [VInt 5; VList [VTuple [VInt 7; VInt 1]; VNone]; VInt 9]).
 Proof. exact (conj c01_demo_tree c01_demo_runs). Qed.
 Print Assumptions C01_hypotheses_satisfiable.
+
+(* ---- tree programs without the hypothesis no_unwind (proofs/MachineNoUnwind.v) ---- *)
+Theorem C01_async_eq_seq_tree_unless_guard : forall P p n o,
+  pointwise P -> tree p ->
+  let h := fst (create [] (FTask p) (st0 P)) in
+  let s1 := snd (create [] (FTask p) (st0 P)) in
+  c_mode (run P n (start h s1)) = MDone o ->
+  o = eval p \/ exists k, (k < n)%nat /\ guard_fires P (run P k (start h s1)) = true.
+Proof. exact (fun P p n o HP Ht => async_eq_seq_tree_unless_guard P HP p Ht n o). Qed.
+Print Assumptions C01_async_eq_seq_tree_unless_guard.
+
+Theorem C01_async_eq_seq_tree_few_futures : forall P p n o,
+  pointwise P -> tree p ->
+  let h := fst (create [] (FTask p) (st0 P)) in
+  let s1 := snd (create [] (FTask p) (st0 P)) in
+  (forall k, (k <= n)%nat -> (top_next (c_st (run P k (start h s1))) <= p_maxstack P)%Z) ->
+  c_mode (run P n (start h s1)) = MDone o -> o = eval p.
+Proof. exact (fun P p n o HP Ht => async_eq_seq_tree_few_futures P HP p Ht n o). Qed.
+Print Assumptions C01_async_eq_seq_tree_few_futures.
+
+(* guard_fires is the guard of Machine.step: where it holds the next configuration raises the RuntimeError *)
+Theorem C01_guard_fires_is_the_guard : forall P c,
+  guard_fires P c = true ->
+  c_mode c = MExecLoop /\ (p_maxstack P < Z.of_nat (length (tasks (c_st c))))%Z /\
+  c_mode (step P c) = MUnwind E_RUNTIME.
+Proof. exact (fun P c G => conj (proj1 (guard_fires_inv P c G)) (conj (proj2 (guard_fires_inv P c G)) (guard_fires_step P c G))). Qed.
+Print Assumptions C01_guard_fires_is_the_guard.
+
+(* both alternatives occur: the demo ends with eval's value when MAX_TASK_STACK_SIZE = 1000 (guard silent, never
+   more than 1000 futures), and with the guard's RuntimeError when MAX_TASK_STACK_SIZE = 1 *)
+Theorem C01_guard_alternative_is_real :
+  (let P := mkP [] 1000 false [] in
+   let h := fst (create [] (FTask c01_demo) (st0 P)) in
+   let s1 := snd (create [] (FTask c01_demo) (st0 P)) in
+   guard_silent_b P 300 (start h s1) = true /\ few_futures_b P 300 (start h s1) = true /\
+   c_mode (run P 300 (start h s1)) = MDone (Ok (VTuple [VInt 5; VList [VTuple [VInt 7; VInt 1]; VNone]; VInt 9]))) /\
+  (let P := mkP [] 1 false [] in
+   let h := fst (create [] (FTask c01_demo) (st0 P)) in
+   let s1 := snd (create [] (FTask c01_demo) (st0 P)) in
+   guard_silent_b P 300 (start h s1) = false /\
+   c_mode (run P 300 (start h s1)) = MDone (Err E_RUNTIME)).
+Proof. exact (conj nounwind_demo nounwind_demo_guard). Qed.
+Print Assumptions C01_guard_alternative_is_real.
 
 (* ---- tree programs with synchronous calls (proofs/MachineC01S.v) ---- *)
 Theorem C01_async_eq_seq_stree : forall P p n o,
@@ -130,6 +187,16 @@ Theorem C01_stree_hypotheses_satisfiable :
      EvDone [0] (Ok (VTuple [VTuple [VTuple [VInt 7; VInt 3]; VInt 1]; VInt 5]))].
 Proof. exact (conj c01s_demo_stree c01s_demo_runs). Qed.
 Print Assumptions C01_stree_hypotheses_satisfiable.
+
+(* without the hypothesis no_unwind (proofs/MachineNoUnwind.v) *)
+Theorem C01_async_eq_seq_stree_unless_guard : forall P p n o,
+  pointwise P -> stree p ->
+  let h := fst (create [] (FTask p) (st0 P)) in
+  let s1 := snd (create [] (FTask p) (st0 P)) in
+  c_mode (run P n (start h s1)) = MDone o ->
+  o = evals p \/ exists k, (k < n)%nat /\ guard_fires P (run P k (start h s1)) = true.
+Proof. exact (fun P p n o HP Ht => async_eq_seq_stree_unless_guard P HP p Ht n o). Qed.
+Print Assumptions C01_async_eq_seq_stree_unless_guard.
 
 (* The general statement (any program, including stored handles / DAGs, value() on existing futures and reads
    of scoped state) is not proved: a sequential reference for those needs an environment of handles and, for
